@@ -15,7 +15,7 @@ pub static PROP: Prop = Prop {
     title: "Segmented arrays behave as lists of lists and keep their size invariant",
     check,
     max_tape: (90, 160),
-    cases: (200_000, 4_000_000),
+    cases: (500_000, 5_000_000),
     both_profiles: false,
     rule: "lists of lists of indices / labels with empty segments and empty totals, re-indexing maps (non-injective, empty, mistyped), composable pairs for flatmap, raw (sizes, values) data for the checked constructors, operation batches; one operation group per case, decoded by explicit slicing; non-trivial = >= 2 segments with >= 1 empty and >= 1 non-empty one (iterator cases: >= 2 steps); distinct = hash of the generated data",
     assumptions: &["flatmap / flatmap_sources are only called inside their asserted preconditions (the library documents a panic otherwise)"],
